@@ -93,6 +93,15 @@ class WP(PartProcessor):
         return self.wo_cap
 
     n_started = 0
+    wear = 0
+
+    @PartProcessor.cycle_time.getter
+    def cycle_time(self):
+        # a machine whose speed depends on the time of day (same pattern as the library's own Buffer: a subclass
+        # overrides the getter of the public property); constant within an instant
+        if not self.wear or self._env is None:
+            return self._cycle_time
+        return self._cycle_time + self.wear * (int(self._env.now) % 3)
 
     def current_cost(self):
         # the cost of an order depends on the machine's state when the order starts: how many orders it has had
@@ -216,6 +225,7 @@ class Model:
             o.wo_dur = d.get('wod', 1.5)
             o.wo_cap = d.get('wocap', 1)
             o.wo_cost = d.get('wocost', 2)
+            o.wear = d.get('wear', 0)
             if d.get('alt') is not None:
                 o.base_cycle = d['c']
                 o.alt_cycle = d['alt']
